@@ -187,6 +187,11 @@ def run_check(prop, tier, seed):
                 msg = prop.oracle(case)
             except Exception as e:  # noqa: BLE001
                 msg = 'oracle crashed: ' + ''.join(traceback.format_exception_only(type(e), e)).strip()
+                if _raised_in_harness(e):
+                    # the exception comes from the harness's own code (e.g. a private attribute of the library that
+                    # no longer exists): the tie between machinery and code is broken, no input is known to fail
+                    broken.append(('oracle', 'harness error', 'the oracle itself failed: ' + msg[len('oracle crashed: '):]))
+                    msg = None
             if msg:
                 key = prop.classify(case, msg)
                 if key in known_keys:
@@ -289,6 +294,23 @@ def run_check(prop, tier, seed):
           f'corr_cases={corr.evaluations} distinct={len(corr.keys)} oracle_runs={oracle_runs} '
           f'broken={len(broken)} violations={len(violations)} wall={wall:.1f}s')
     return status
+
+
+def _raised_in_harness(e) -> bool:
+    """True iff the innermost frame of the exception belongs to /verif (harness, props, framework) and the exception
+    is of a kind that signals a mismatch between harness and library internals, not a behaviour of the library"""
+    if not isinstance(e, (AttributeError, ImportError, NameError)):
+        return False
+    tb = e.__traceback__
+    last = None
+    while tb is not None:
+        last = tb
+        tb = tb.tb_next
+    if last is None:
+        return False
+    fn = last.tb_frame.f_code.co_filename
+    here = str(pathlib.Path(__file__).resolve().parent.parent)
+    return fn.startswith(here)
 
 
 def run_replay(prop, path):
